@@ -343,6 +343,15 @@ theorem C04_stateless_independent (c : Cfg) (ops : List Op) (op : Op) (hm : c.mo
 theorem C04_id_source : Mcp.Gen.sessionIdBytes ≥ 16 ∧ Mcp.Gen.sessionIdFromCryptoRand = true ∧
     Mcp.Gen.sessionIdHexEncoded = true := by decide
 
+/-- Every method that touches the session table does so in ONE critical section of the manager's mutex, writers holding
+    it exclusively (regenerated): "is the id live?" and "delete it" / "insert it" are one atomic step, which is what lets
+    the model treat POST / GET / DELETE as atomic steps over the live set even when requests of several clients overlap
+    (two overlapping DELETEs of one id: exactly one finds it). -/
+theorem C04_table_ops_atomic :
+    Mcp.Gen.sessionTableOps ≠ [] ∧
+    ∀ op ∈ Mcp.Gen.sessionTableOps, op.2.1 = 1 ∧ (op.2.2.1 = true → op.2.2.2 = true) := by
+  decide
+
 open Mcp.Ids in
 /-- Hex rendering is injective (two different 128-bit draws give two different ids), has two characters per byte
     and uses only `0-9a-f` (visible ASCII). -/
